@@ -512,6 +512,8 @@ type AEnv struct {
 	EVM  *avm.EVM
 	Ctx  context.Context
 	done func()
+	// BlockCtx is the block context the host built the EVM with (what a host hands to SetBlockContext again)
+	BlockCtx avm.BlockContext
 }
 
 // Release returns a pooled state to its base (no-op for a private state).
@@ -550,7 +552,7 @@ func newA(c *Case, opts AOpts, db *TDB, done func()) *AEnv {
 	if h == nil {
 		h = &Host{}
 	}
-	return &AEnv{db, evm, WithHost(h), done}
+	return &AEnv{DB: db, EVM: evm, Ctx: WithHost(h), done: done, BlockCtx: bc}
 }
 
 // Call runs one entry point on the /repo EVM without collecting state (for multi-invocation scenarios).
